@@ -1,0 +1,10 @@
+//go:build verif
+
+package metadatastore
+
+// Contracts checked by /verif/gocv (comment-only file; see /verif/DESIGN.md §3).
+
+//@ func ValidateChecksums
+//@ ensures[C04:mismatch-rejected] checksumInput != nil && specMismatch(*checksumInput, calculatedChecksums) ==> err == ErrBadDigest
+//@ ensures[C04:no-spurious-reject] err != nil ==> checksumInput != nil && specMismatch(*checksumInput, calculatedChecksums)
+//@ ensures[C04:error-kind] err == nil || err == ErrBadDigest
